@@ -260,7 +260,7 @@ def _check_triples(res, rn, name, key, build, script, trs, tol_factor, nontrivia
         res["counters"]["evaluations"] += 1
         if nontrivial_matrix and _nonprop(c1, c2):
             res["nontrivial"] += 1
-        if err > tol:
+        if not (err <= tol):  # NaN-safe
             res["viol"].append(dict(sig=f"nonlinear:{name}", cls=f"nonlinear:{name}:{rn.J.shape[0]}x{rn.J.shape[1]}:{key.split('[s')[0].split('(')[0]}",
                                     msg=f"{desc0} c1={c1} c2={c2} a={a} b={b}: A(c0)={xs[0].tolist()} a*A(c1)+b*A(c2)={(a * xs[1] + b * xs[2]).tolist()} err/tol={r:.3g}"[:600]))
     return
@@ -310,7 +310,7 @@ def _config_float32(res, J, key, w):
             okey = "exact:ConFIG:float32"
             res["maxima"][okey] = max(res["maxima"].get(okey, 0.0), err / tol)
             res["counters"]["evaluations"] += 1
-            if err > tol:
+            if not (err <= tol):  # NaN-safe
                 res["viol"].append(dict(sig="nonlinear:ConFIG:float32", cls=f"nonlinear:ConFIG:float32:g={g:g}:shrink={shrink:g}",
                                         msg=f"{key} J={J.tolist()} global scale {g:g} pref x{shrink:g} float32: A(c0)={xs[0].tolist()} "
                                             f"a*A(c1)+b*A(c2)={(a * xs[1] + b * xs[2]).tolist()} err/tol={err / tol:.3g}"[:600]))
@@ -487,7 +487,7 @@ def _run_upgrad(case, res):
                     res["counters"]["evaluations"] += 1
                     if conflict and _nonprop(c1, c2):
                         res["nontrivial"] += 1
-                    if defect > bound:
+                    if not (defect <= bound):  # NaN-safe
                         res["viol"].append(dict(sig=f"upgrad-defect-exceeds-bound:reg={reg:g}", cls=f"upgrad-defect:{reg:g}",
                                                 msg=f"{key} J={J.tolist()} c1={c1} c2={c2} a={a} b={b}: defect={defect:.3g} bound={bound:.3g} S={S:.3g} W={[round(w, 3) for w, _ in ws]}"[:600]))
                 x1 = rn.run(f"UPGrad[p{pk},reg={reg:g}]", build, [], trs[0][0])
